@@ -202,7 +202,7 @@ pub(crate) fn choices(pending: &[&Ev], rng: &mut Rng, thorough: bool) -> Vec<(St
     for r in 0..(if thorough { 12 } else { 3 }) {
         v.push((format!("random-{r}"), (0..n).map(|_| if rng.chance(1, 2) { Choice::Full } else { Choice::Skip }).collect()));
     }
-    if thorough && n <= 10 {
+    if thorough && n <= 7 {
         for mask in 0..(1u32 << n) {
             v.push((format!("mask-{mask:b}"), (0..n).map(|i| if mask & (1 << i) != 0 { Choice::Full } else { Choice::Skip }).collect()));
         }
